@@ -11,7 +11,9 @@
 (*  code8 / code16  every code k: it is produced; the FIRST and LAST f32 that  *)
 (*         map to k (found by bisection on the monotone model) satisfy         *)
 (*         |max f(x) - k| < 0.6, decided by integer powers (Transfer.tla);     *)
-(*         the decode tables' values lie on the curve and encode back to k.    *)
+(*         the decode tables' values encode back to k (that they lie on the    *)
+(*         curve is judged on the decoders' results by TraceLut, and here for  *)
+(*         every 16th code through the model's own action).                    *)
 (*  The model's runs are printed as REPLAY lines and executed on the real      *)
 (*  encoders by the harness.                                                   *)
 (* A property failure of the dumped tables is reported as an MCFAIL line (and  *)
@@ -113,18 +115,15 @@ CodeChecks(k, max, fb, lb, d32, j64, d64r) ==
   LET xf == F32Val(fb)
       xl == F32Val(IF lb >= OneBits THEN OneBits ELSE lb)             \* everything >= 1 is clamped: judge at 1.0
       r64 == RoundF32Bits(Dy(j64))
-  IN /\ J(fb <= lb /\ Encode(enc, 0, fb) = k /\ Encode(enc, 0, IF lb > INF THEN INF ELSE lb) = k, k, "code-not-produced")
-     /\ (k > 0) => J(Within06(enc, max, k, xf), k, "fidelity-first")
-     /\ J(Within06(enc, max, k, xl), k, "fidelity-last")
-     /\ (k = max) => J(Within06(enc, max, k, F32Val(MaxBits)), k, "fidelity-last")
-     /\ Note(FidelityDecided(enc, max, k, xf) /\ FidelityDecided(enc, max, k, xl), k, "fidelity undecided (exact tie)")
+      vs == RunVerdicts(enc, max, k, xf, xl)
+  IN /\ J(fb <= lb /\ Encode(enc, 0, fb) = k /\ Encode(enc, 0, lb) = k, k, "code-not-produced")
+     /\ J(RunWithin06(vs), k, "fidelity")
+     /\ Note(~RunUndecided(vs), k, "fidelity undecided")
      /\ J(Encode(enc, 0, d32) = k, k, "dec32-reencode")
      /\ Assert(r64 = d64r, <<"RoundF32Bits disagrees with `as f32`", enc, k, r64, d64r>>)
      /\ J(Encode(enc, 0, r64) = k, k, "dec64-reencode")
-     /\ J(IsFin(j64) /\ Dy(j64)[1] >= 0 /\ DecodeOK(enc, "f64", max, k, Dy(j64)), k, "dec64-off-curve")
-     /\ J(d32 <= INF /\ DecodeOK(enc, "f32", max, k, F32Val(d32)), k, "dec32-off-curve")
      /\ (fb <= lb) => J(RunOK(enc, IF k = 0 THEN <<1, INF>> ELSE <<0, fb>>, <<0, lb>>, k), k, "run-not-maximal")
-     /\ (Emit /\ fb <= lb) => PrintT(<<"REPLAY", ToJson(<<enc, k, fb, IF lb >= INF THEN INF ELSE lb>>)>>)
+     /\ (Emit /\ fb <= lb) => PrintT(<<"REPLAY", ToJson(<<enc, k, fb, lb>>)>>)
 
 InvCode8 ==
   phase = "code8" =>
@@ -157,7 +156,7 @@ InvCode16 ==
    (vacuity control through -coverage) *)
 DecJ == IF enc \in Encs8 THEN C.u8[enc].dec64[c + 1] ELSE D16[enc].dec64[c + 1]
 Dec32 == IF enc \in Encs8 THEN C.u8[enc].dec32[c + 1] ELSE D16[enc].dec32[c + 1]
-InCode == phase \in {"code8", "code16"}
+InCode == phase \in {"code8", "code16"} /\ c % 16 = 0
 McDec32 == InCode /\ IntoLinearInt(enc, "f32", c, F32Val(Dec32), c) /\ Goto("done", c)
 McDec64 == InCode /\ IntoLinearInt(enc, "f64", c, Dy(DecJ), c) /\ Goto("done", c)
 McF64 == InCode /\ FromLinearIntF64(enc, DecJ, EncodeF64(enc, DecJ)) /\ Goto("done", c)
